@@ -240,6 +240,8 @@ class Check(DiffCheck):
                     '+ a non-deterministic OS-thread stress for destroy-after-wait (E4 not built)')
     case_timeout = 1500
     lockset_rules = {10, 11, 12, 13, 14, 15, 21, 22, 24}
+    # E4S (lib/e4s.py): controlled 2-vCPU schedule search with this property's oracle (preemption at every lock boundary)
+    e4s_props = {'C02'}
 
     def __init__(self):
         self.runner_ml = e2lib.make_runner(self.id, ['ocaml/E2_lib.ml', 'ocaml/C02_run.ml'])
